@@ -502,8 +502,11 @@ trivial = empty input; distinct = distinct input contents; families: every lengt
     {
         let mut rng = Rng::derive(seed, 6, 0x5e7);
         let mut set: Vec<(Vec<u8>, usize)> = Vec::new();
-        for k in 0..ctx.tier.pick(40usize, 120) {
-            let n = if k % 10 == 9 { 20 << 20 } else { (1 << 20) + k * 4096 };
+        // (under a lane that slows execution down by an order of magnitude or more the set is small:
+        // the lane is there for memory errors, the main run for the contention)
+        let slowed = std::env::var("VERIF_CASES_DIV").ok().and_then(|v| v.parse::<u64>().ok()).map(|d| d >= 8).unwrap_or(false);
+        for k in 0..if slowed { 10 } else { ctx.tier.pick(40usize, 120) } {
+            let n = if slowed { (128 << 10) + k * 4096 } else if k % 10 == 9 { 20 << 20 } else { (1 << 20) + k * 4096 };
             let word = rng.bytes(rng.clone().urange(1, 24));
             let payload: Vec<u8> = word.iter().cycle().take(n).cloned().collect();
             set.push((enc::ldm_record(&enc::bzip2_compress(&payload, 1), k % 2 == 0), n));
